@@ -98,7 +98,7 @@ class Closure:
 
 class Frame:
     __slots__ = ('info', 'locals', 'enclosing', 'gen', 'first_arg', 'defcls', 'loop_counter', 'call_counter',
-                 'reduce_counter', 'reduce_site', 'assumed', 'proving')
+                 'reduce_counter', 'reduce_site', 'join_counter', 'model_site', 'loop_index', 'map_counter', 'assumed', 'proving')
 
     def __init__(self, info, locals_, enclosing, first_arg=None, defcls=None):
         self.info = info
@@ -111,8 +111,19 @@ class Frame:
         self.call_counter = 0
         self.reduce_counter = 0
         self.reduce_site = None
+        self.join_counter = 0
+        self.model_site = None
+        self.loop_index = {}
+        self.map_counter = 0
+
         self.assumed = False    # the truth of this frame's result is about to be assumed (see Interp.call_assumed)
         self.proving = None     # (obligation name, meta): the truth of this frame's result is to be proved
+
+class PartialObj:
+    """functools.partial of an interpreted callable / with symbolic arguments"""
+
+    def __init__(self, func, args, keywords):
+        self.func, self.args, self.keywords = func, tuple(args), dict(keywords)
 
 
 class SuperProxy:
@@ -238,6 +249,12 @@ _BINOPS = {
     ast.BitAnd: operator.and_, ast.BitXor: operator.xor, ast.LShift: operator.lshift, ast.RShift: operator.rshift,
     ast.MatMult: operator.matmul,
 }
+_DUNDER = {
+    ast.Add: ('__add__', '__radd__'), ast.Sub: ('__sub__', '__rsub__'), ast.Mult: ('__mul__', '__rmul__'),
+    ast.Mod: ('__mod__', '__rmod__'), ast.BitOr: ('__or__', '__ror__'), ast.BitAnd: ('__and__', '__rand__'),
+    ast.Div: ('__truediv__', '__rtruediv__'), ast.FloorDiv: ('__floordiv__', '__rfloordiv__'),
+}
+_BINOP_DUNDERS = _DUNDER
 _CMPOPS = {
     ast.Eq: operator.eq, ast.NotEq: operator.ne, ast.Lt: operator.lt, ast.LtE: operator.le,
     ast.Gt: operator.gt, ast.GtE: operator.ge,
@@ -262,19 +279,15 @@ class Interp:
         self.max_depth = 400
         self.fn_name = '?'
         self.frame_stack = []
-        self.loop_guards = []
+        self.cover_file = None
         from . import strings as _strings
         st.on_fact = lambda t: _strings.learn(self, t)
         self.loop_index_stack = []     # index terms of the enclosing symbolic loops (arbitrary iteration)
+        self.loop_frame_stack = []     # arbitrary iterations being executed: declared object fields, new objects
         self.collect = None            # (code object, YSeq): the generator function under verification
 
     def current_function_name(self):
         return self.fn_name
-
-    def note_heap_write(self, obj, attr):
-        """Hook for the loop rule: a store to obj.attr (or a mutation of container obj, attr None) happens."""
-        for g in getattr(self, 'loop_guards', ()):
-            g.check(self, obj, attr)
 
     # ======================================================================= frames
     def lookup(self, name, frame):
@@ -309,6 +322,15 @@ class Interp:
             raise Unsupported('nonlocal %s not found' % name)
         if name in info.global_names:
             raise Unsupported('assignment to global %s' % name)
+        if type(value) is list and self.reg.local_shapes:
+            declared = self.reg.local_shapes.get(info)
+            if declared and name in declared:
+                # contract-directed representation: this local list is a symbolic mutable list from the start
+                from .mlist import MList, from_concrete
+                if value:
+                    value = from_concrete(self, value, name)
+                else:
+                    value = MList(self, self.st.fresh_name(name), declared[name].shape())
         frame.locals[name] = value
 
     @staticmethod
@@ -427,13 +449,16 @@ class Interp:
             return models.call_sym_method(self, f.recv, f.name, list(args), kwargs)
         if isinstance(f, Closure):
             return self.run_function(f.info, f.enclosing, f.defaults, f.kwdefaults, args, kwargs, f.defcls_hint)
-        if isinstance(f, functools.partial):
+        if isinstance(f, (functools.partial, PartialObj)):
             kw = dict(f.keywords)
             kw.update(kwargs)
             return self.call(f.func, list(f.args) + list(args), kw)
         if isinstance(f, Opaque):
             return self.reg.call_opaque(self, f, '__call__', list(args), kwargs)
-        from .api import OpaqueMethod, call_opaque_method
+        from .api import OpaqueMethod, call_opaque_method, Measure
+        if isinstance(f, Measure):
+            from . import mlist
+            return mlist.apply_measure(self, f, list(args))
         if isinstance(f, OpaqueMethod):
             return call_opaque_method(self, f.o, f.name, f.m, list(args), kwargs)
         if isinstance(f, _CtxFactory):
@@ -444,6 +469,11 @@ class Interp:
             return self.construct(f, list(args), kwargs)
         if isinstance(f, (staticmethod,)):
             return self.call(f.__func__, args, kwargs)
+        # --- a callable instance of a repository class: its __call__ is interpreted
+        if not isinstance(f, (types.BuiltinFunctionType, types.MethodDescriptorType, types.ModuleType)):
+            cm = _static_lookup(type(f), '__call__')
+            if cm is not None and isinstance(cm[0], types.FunctionType) and _is_repo_function(cm[0]):
+                return self.call_function_object(cm[0], [f] + list(args), kwargs, cm[1], bound_self=f)
         # --- builtins, method descriptors, other callables
         return self.call_native(f, list(args), kwargs)
 
@@ -504,11 +534,23 @@ class Interp:
         # contract?
         c = self.reg.contract_for(func)
         if c is not None and not (c.inline(self.fn_name) if callable(c.inline) else c.inline):
-            return self.reg.apply_contract(self, c, func, args, kwargs)
+            # a contract stated in ANOTHER sidecar module speaks about arguments of its own shapes only:
+            # for arguments of other shapes it says nothing and the real body is interpreted instead
+            cur = getattr(self.reg, 'current_module', None)
+            policy = getattr(cur, 'foreign_contracts', 'imports')
+            owner_mod = getattr(c, 'module', None)
+            if owner_mod is cur or cur is None or policy == 'apply' or \
+                    (policy == 'imports' and getattr(owner_mod, 'prop', None) in getattr(cur, 'uses', ())) or \
+                    (policy == 'imports' and getattr(owner_mod, 'prop', None) == getattr(cur, 'prop', None)) or \
+                    (policy == 'fit' and self.reg.args_fit_contract(self, c, func, args, kwargs)):
+                return self.reg.apply_contract(self, c, func, args, kwargs)
         m = self.reg.model_for(func)
         if m is not None:
             self.st.used_models.add(_qn(func))
             return m(self, args, kwargs)
+        if getattr(func, '_pv_recursive', False):
+            from . import models
+            return models.call_recursive_spec(self, func, args, kwargs)
         code = func.__code__
         if is_interpretable_file(code.co_filename):
             return self.call_real_function(func, args, kwargs, defcls)
@@ -533,14 +575,14 @@ class Interp:
         if isinstance(selfobj, str) and (any(contains_sym(a) for a in args)):
             from . import strings
             return strings.call_method(self, SStr(z3.StringVal(selfobj)), name, args, kwargs)
+        if name == '__init__' and isinstance(selfobj, BaseException) and type(f).__name__ == 'method-wrapper':
+            # BaseException.__init__ only stores its arguments in .args
+            return self._native(f, args, kwargs)
         if selfobj is not None and not isinstance(selfobj, types.ModuleType):
             if (type(selfobj), name) in _SAFE_NATIVE_METHODS:
                 if type(selfobj) is dict and name in ('get', 'pop', 'setdefault', '__contains__') and args \
                         and contains_sym(args[0], 0):
                     raise Unsupported('dict.%s with symbolic key' % name)
-                if self.loop_guards and name in ('append', 'extend', 'insert', 'pop', 'clear', 'reverse',
-                                                 'setdefault', 'update'):
-                    self.note_heap_write(selfobj, None)
                 return self._native(f, args, kwargs)
         if any(contains_sym(a) for a in args) or any(contains_sym(a) for a in kwargs.values()) or \
                 (selfobj is not None and contains_sym(selfobj)):
@@ -564,7 +606,20 @@ class Interp:
         if m is None:
             m = models.lookup_model(cls)
         if m is not None:
+            self.st.used_models.add(_qn(cls))
             return m(self, args, kwargs)
+        if issubclass(cls, enum.Enum) and len(args) == 1 and not kwargs and isinstance(args[0], SChoice):
+            # Enum(value) for one of finitely many values: the member per alternative
+            members = []
+            for alt in args[0].alts:
+                try:
+                    members.append(cls(alt))
+                except ValueError:
+                    members = None
+                    break
+            if members is not None:
+                return SChoice(args[0].idx, members)
+            args = [self.resolve(args[0])]
         if issubclass(cls, enum.Enum) or not _is_repo_class(cls):
             if issubclass(cls, BaseException) and not _is_repo_class(cls):
                 try:
@@ -589,7 +644,9 @@ class Interp:
             elif issubclass(cls, tuple):
                 obj = tuple.__new__(cls, *args)
             else:
-                obj = object.__new__(cls)
+                from .api import _bare_instance
+                obj = _bare_instance(cls)
+        self.note_new_object(obj)
         if isinstance(obj, cls):
             init = _static_lookup(cls, '__init__')
             if init is not None and isinstance(init[0], types.FunctionType) and _is_repo_function(init[0]):
@@ -610,6 +667,10 @@ class Interp:
                 fn = obj.src_fn if name == 'src' else obj.pos_fn
                 return EngineFn(lambda k, fn=fn: wrap(fn(to_z3(k))))
         if isinstance(obj, Sym):
+            if isinstance(obj, SChoice) and all(isinstance(a, enum.Enum) for a in obj.alts) \
+                    and name in ('name', 'value', '_name_', '_value_'):
+                # plain data attribute of one of finitely many enum members: no case split needed
+                return SChoice(obj.idx, [getattr(a, name) for a in obj.alts])
             if isinstance(obj, (SOpt, SChoice)):
                 return self.getattr(self.resolve(obj), name)
             return SymMethod(obj, name)
@@ -621,7 +682,7 @@ class Interp:
                 return wrap(to_z3(obj.pos)) if not isinstance(obj.pos, int) else obj.pos
             if name == 'xs':
                 return obj.xs
-        if isinstance(obj, (_models.SMap, _models.SIter)):
+        if isinstance(obj, (_models.SMap, _models.SIter, _models.SMapProxy)):
             return SymMethod(obj, name)
 
         if isinstance(obj, SuperProxy):
@@ -688,6 +749,13 @@ class Interp:
             return BoundMethod(v.__func__, type(obj) if not isinstance(obj, type) else obj, k)
         if isinstance(v, property):
             return self.call_function_object(v.fget, [obj], {}, k)
+        if hasattr(type(v), '__get__') and not isinstance(obj, type):
+            # a native descriptor found in class k (e.g. Exception.__init__ reached through super()):
+            # bind THAT descriptor -- getattr(obj, name) would start again at the most derived class
+            try:
+                return v.__get__(obj, type(obj))
+            except Exception as e:
+                raise PyRaise(e)
         return self._native_getattr(obj, name)
 
     def _native_getattr(self, obj, name):
@@ -696,17 +764,34 @@ class Interp:
         except Exception as e:
             raise PyRaise(e)
 
+    def note_new_object(self, obj):
+        for e in self.loop_frame_stack:
+            e['born'].add(id(obj))
+
+    def note_container_write(self, obj):
+        """the contents of a container object (a dictionary over a key universe, ...) are changed: inside the
+        arbitrary iteration of a loop with invariant the container must have been havocked at the loop head
+        (declared in `modifies` with an in-place entry) or be new"""
+        for e in self.loop_frame_stack:
+            if id(obj) not in e['born'] and (id(obj), '<contents>') not in e['declared'] \
+                    and (id(obj), '*') not in e['declared']:
+                raise Unsupported('%s: the loop body changes the contents of a %s that is not declared in modifies'
+                                  % (e['loop'], type(obj).__name__))
+
     def setattr(self, obj, name, value):
         if isinstance(obj, (SOpt, SChoice)):
             obj = self.resolve(obj)
+        for e in self.loop_frame_stack:
+            # the arbitrary iteration of a loop with invariant: a store to a field of an object that existed
+            # before the iteration must be declared in the loop's `modifies` (it was havocked at the loop head)
+            if id(obj) not in e['born'] and (id(obj), name) not in e['declared'] \
+                    and (id(obj), '*') not in e['declared'] and not isinstance(obj, type):
+                raise Unsupported('%s: the loop body stores to field %r of a %s that is not declared in modifies '
+                                  '(declare it as \'<local>.<attr>...\')' % (e['loop'], name, type(obj).__name__))
         if isinstance(obj, Opaque):
-            if self.loop_guards:
-                self.note_heap_write(obj, name)
             return self.reg.opaque_setattr(self, obj, name, value)
         if isinstance(obj, Sym):
             raise PyRaise(AttributeError(name))
-        if self.loop_guards:
-            self.note_heap_write(obj, name)
         cls = type(obj)
         for k in cls.__mro__:
             if name in k.__dict__:
@@ -767,6 +852,9 @@ class Interp:
             return self.truth(self.resolve(v))
         if isinstance(v, SList):
             return wrap(v.length > 0)
+        from . import models as _m
+        if isinstance(v, _m.SMap):
+            return wrap(z3.Not(v.has == z3.K(v.ksort, z3.BoolVal(False))))
         if isinstance(v, (int, str, list, tuple, dict, set, frozenset, float, bytes)):
             return bool(v)
         if isinstance(v, Opaque):
@@ -795,18 +883,31 @@ class Interp:
             a = self.resolve(a)
         if isinstance(b, (SOpt, SChoice)):
             b = self.resolve(b)
+        if isinstance(a, Opaque) or isinstance(b, Opaque):
+            # operator on an object known through an interface: the interface's __op__ / __rop__ method
+            r = self._opaque_binop(opcls, a, b)
+            if r is not NotImplemented:
+                return r
         if isinstance(a, SBool):
             a = SInt(z3.If(a.t, 1, 0))
         if isinstance(b, SBool):
             b = SInt(z3.If(b.t, 1, 0))
+        if isinstance(a, Opaque) or isinstance(b, Opaque):
+            # an operator of an opaque object: the interface's method, when it describes one
+            dunder = {ast.Add: 'add', ast.Sub: 'sub', ast.Mult: 'mul', ast.Mod: 'mod', ast.Div: 'truediv',
+                      ast.FloorDiv: 'floordiv', ast.BitOr: 'or', ast.BitAnd: 'and'}.get(opcls)
+            if dunder and isinstance(a, Opaque) and self.reg.opaque_has(self, a, '__%s__' % dunder):
+                return self.reg.call_opaque(self, a, '__%s__' % dunder, [b], {})
+            if dunder and isinstance(b, Opaque) and self.reg.opaque_has(self, b, '__r%s__' % dunder):
+                return self.reg.call_opaque(self, b, '__r%s__' % dunder, [a], {})
+            raise Unsupported('binary operator on opaque object')
         sa, sb = isinstance(a, Sym), isinstance(b, Sym)
+        if (sa or sb) and not (isinstance(a, Opaque) or isinstance(b, Opaque)):
+            # a user-defined operator of a repository / model class with a symbolic operand (p / name)
+            r = self._user_binop(opcls, a, b)
+            if r is not NotImplemented:
+                return r
         if not sa and not sb:
-            if isinstance(a, Opaque) or isinstance(b, Opaque):
-                name = {ast.Add: '__add__', ast.Sub: '__sub__', ast.Mult: '__mul__', ast.Div: '__truediv__',
-                        ast.Mod: '__mod__', ast.BitOr: '__or__', ast.BitAnd: '__and__'}.get(opcls)
-                if name is not None and isinstance(a, Opaque) and self.reg.opaque_has(self, a, name):
-                    return self.reg.call_opaque(self, a, name, [b], {})
-                raise Unsupported('binary operator on opaque object')
             if opcls is ast.Mod and isinstance(a, str) and contains_sym(b):
                 return SStr(self.st.fresh_str('fmt'))
             if opcls is ast.Add and isinstance(a, (list, tuple)) and type(a) is type(b):
@@ -849,14 +950,36 @@ class Interp:
             raise PyRaise(TypeError('unsupported operand types for +'))
         raise Unsupported('binary operator %s on %r, %r' % (opcls.__name__, type(a).__name__, type(b).__name__))
 
-    def _user_binop(self, opcls, a, b):
-        name = {ast.Add: '__add__', ast.Sub: '__sub__', ast.Mult: '__mul__', ast.Mod: '__mod__',
-                ast.BitOr: '__or__', ast.BitAnd: '__and__'}.get(opcls)
-        if name is None or isinstance(a, (int, str, list, tuple, dict, float, type(None))):
+    _OPAQUE_DUNDER = {ast.Add: 'add', ast.Sub: 'sub', ast.Mult: 'mul', ast.Div: 'truediv', ast.FloorDiv: 'floordiv',
+                      ast.Mod: 'mod', ast.BitOr: 'or', ast.BitAnd: 'and', ast.BitXor: 'xor', ast.Pow: 'pow',
+                      ast.LShift: 'lshift', ast.RShift: 'rshift', ast.MatMult: 'matmul'}
+
+    def _opaque_binop(self, opcls, a, b):
+        nm = self._OPAQUE_DUNDER.get(opcls)
+        if nm is None:
             return NotImplemented
-        m = _static_lookup(type(a), name)
-        if m is not None and isinstance(m[0], types.FunctionType) and _is_repo_function(m[0]):
-            return self.call_function_object(m[0], [a, b], {}, m[1])
+        if isinstance(a, Opaque) and self.reg.opaque_has(self, a, '__%s__' % nm):
+            return self.reg.call_opaque(self, a, '__%s__' % nm, [b], {})
+        if isinstance(b, Opaque) and self.reg.opaque_has(self, b, '__r%s__' % nm):
+            return self.reg.call_opaque(self, b, '__r%s__' % nm, [a], {})
+        return NotImplemented
+
+    def _user_binop(self, opcls, a, b):
+        names = _DUNDER.get(opcls)
+        if names is None:
+            return NotImplemented
+        plain = (int, str, list, tuple, dict, float, type(None), Sym)
+        if not isinstance(a, plain):
+            m = _static_lookup(type(a), names[0])
+            if m is not None and isinstance(m[0], types.FunctionType) and _is_repo_function(m[0]):
+                r = self.call_function_object(m[0], [a, b], {}, m[1])
+                if r is not NotImplemented:
+                    return r
+        if not isinstance(b, plain):
+            # reflected operator of the right operand ('name' / path)
+            m = _static_lookup(type(b), names[1])
+            if m is not None and isinstance(m[0], types.FunctionType) and _is_repo_function(m[0]):
+                return self.call_function_object(m[0], [b, a], {}, m[1])
         return NotImplemented
 
     def eq(self, a, b):
@@ -888,7 +1011,21 @@ class Interp:
                             if all(isinstance(self.eq(alt, b), bool) for alt in a.alts) else self._eq_resolved(a, b))
             if isinstance(b, SChoice) and not isinstance(a, Sym):
                 return self.eq(b, a)
+            if isinstance(a, SChoice) and isinstance(b, SChoice) and \
+                    all(isinstance(x, enum.Enum) for x in a.alts + b.alts):
+                hits = [z3.And(a.idx == i, b.idx == k) for i, x in enumerate(a.alts)
+                        for k, y in enumerate(b.alts) if x == y]
+                return wrap(z3.Or(*hits)) if hits else False
             return self._eq_resolved(a, b)
+        from . import models as _m
+        if isinstance(a, _m.SMapProxy):
+            a = a.m
+        if isinstance(b, _m.SMapProxy):
+            b = b.m
+        if isinstance(a, _m.SMap):
+            return a.eq(self, b)
+        if isinstance(b, _m.SMap):
+            return b.eq(self, a)
         sa, sb = isinstance(a, Sym), isinstance(b, Sym)
         if sa or sb:
             if isinstance(a, SList) or isinstance(b, SList):
@@ -918,7 +1055,7 @@ class Interp:
                 r = self.reg.opaque_eq(self, a, b)
                 if r is not NotImplemented:
                     return r
-            return a is b
+            return self.is_(a, b)
         if not isinstance(a, (int, str, float, bytes, type(None), tuple, list, dict, set, frozenset, enum.Enum, type)):
             m = _static_lookup(type(a), '__eq__')
             if m is not None and isinstance(m[0], types.FunctionType) and _is_repo_function(m[0]):
@@ -969,6 +1106,9 @@ class Interp:
             if a is None or b is None or ka != kb:
                 raise PyRaise(TypeError('ordering comparison not supported between these types'))
             raise Unsupported('ordering comparison on %s' % ka)
+        if isinstance(a, Opaque) and isinstance(b, Opaque) and getattr(a._pv_iface, 'sort_key', None) \
+                and getattr(b._pv_iface, 'sort_key', None):
+            return self.compare(opcls, self.getattr(a, a._pv_iface.sort_key), self.getattr(b, b._pv_iface.sort_key))
         if isinstance(a, Opaque) or isinstance(b, Opaque):
             raise Unsupported('ordering on opaque')
         try:
@@ -977,6 +1117,8 @@ class Interp:
             raise PyRaise(e)
 
     def is_(self, a, b):
+        if a is b and isinstance(a, Sym):
+            return True       # the very same symbolic value
         if isinstance(a, SOpt):
             if b is None:
                 return wrap(a.is_none)
@@ -985,9 +1127,12 @@ class Interp:
             return self.is_(b, a)
         if isinstance(a, SChoice):
             if isinstance(b, SChoice):
-                pairs = [z3.And(a.idx == i, b.idx == j) for i, x in enumerate(a.alts) for j, y in enumerate(b.alts)
-                         if x is y]
-                return wrap(z3.Or(*pairs)) if pairs else False
+                # identical iff both select the same object: no case split needed
+                hits = [z3.And(a.idx == i, b.idx == j) for i, x in enumerate(a.alts) for j, y in enumerate(b.alts)
+                        if x is y]
+                if not hits:
+                    return False
+                return wrap(z3.Or(*hits) if len(hits) > 1 else hits[0])
             hits = [a.idx == i for i, alt in enumerate(a.alts) if alt is b]
             if not hits:
                 return False
@@ -1004,6 +1149,17 @@ class Interp:
             if _kind(a) != _kind(b):
                 return False
             raise Unsupported("'is' on symbolic int/str")
+        if isinstance(a, Opaque) and isinstance(b, Opaque) and a is not b:
+            from .api import same_object
+            r = same_object(a, b)
+            if r is not None:
+                return r
+        if a is not b and isinstance(a, Opaque) and isinstance(b, Opaque) and a._pv_uid == b._pv_uid \
+                and a._pv_index and len(a._pv_index) == len(b._pv_index) \
+                and all(x.sort() == y.sort() for x, y in zip(a._pv_index, b._pv_index)):
+            # two views of the elements of one symbolic family (list elements, results of a pure method):
+            # the same object iff the indices are equal (distinct indices: distinct objects, DESIGN 2.5)
+            return wrap(z3.And(*[x == y for x, y in zip(a._pv_index, b._pv_index)]))
         return a is b
 
     def not_(self, v):
@@ -1020,11 +1176,21 @@ class Interp:
             return container.contains(self, x)
         if isinstance(container, (SStr, str)) and isinstance(x, (SStr, str)) and \
                 (isinstance(container, SStr) or isinstance(x, SStr)):
-            from . import strings
-            return wrap(strings.contains_term(self, to_z3(container), to_z3(x)))
+            from . import strings, charclass
+            if strings.aligning(self) and isinstance(x, str) and len(x) == 1 and isinstance(container, SStr):
+                # (with alignment: membership of a single character through the additive counting measure)
+                return wrap(strings.count_term(self, container.t, x) > 0)
+            if isinstance(x, str) and isinstance(container, SStr):
+                charclass.contains_link_pattern(self, container.t, z3.StringVal(x))
+            return wrap(z3.Contains(strings.norm(self, to_z3(container)), strings.norm(self, to_z3(x))))
         if isinstance(container, SList):
             from . import models
             return models.slist_contains(self, container, x)
+        from . import models as _m
+        if isinstance(container, _m.SMap):
+            return container.contains(self, x)
+        if isinstance(container, (_m.SMapKeys, _m.SMapProxy)):
+            return container.m.contains(self, x)
         if isinstance(container, (list, tuple, set, frozenset)) or isinstance(container, (dict,)) or \
                 type(container).__name__ in ('dict_keys', 'dict_values', 'mappingproxy'):
             if not contains_sym(x, 0) and not contains_sym(container, 1) and not isinstance(x, (tuple, list)):
@@ -1195,6 +1361,19 @@ class Interp:
 
     def e_IfExp(self, node, frame):
         c = self.eval(node.test, frame)
+        if self.st.no_fork:
+            # inside a quantifier body a case split is not possible: a conditional expression with scalar
+            # branches becomes an if-then-else term (each branch evaluated under its condition)
+            t = self.truth(c)
+            if not isinstance(t, bool):
+                with self.st.scope(t.t):
+                    a = self.eval(node.body, frame)
+                with self.st.scope(z3.Not(t.t)):
+                    b = self.eval(node.orelse, frame)
+                ka, kb = _kind(a), _kind(b)
+                if ka is not None and ka == kb and ka != 'none':
+                    return wrap(z3.If(t.t, to_z3(a), to_z3(b)))
+                raise Unsupported('conditional expression with non-scalar branches inside a quantifier body')
         if self.branch(c):
             return self.eval(node.body, frame)
         return self.eval(node.orelse, frame)
@@ -1253,8 +1432,24 @@ class Interp:
                 if isinstance(kk, SChoice):
                     kk = self.resolve(kk)
                 if contains_sym(kk, 0):
-                    raise Unsupported('dict display with symbolic key')
-                d[kk] = self.eval(v, frame)
+                    # a symbolic key: the dict becomes a symbolic map (values not tracked)
+                    from . import models
+                    if not isinstance(d, models.SMap):
+                        from .api import Str as _StrTy, Int as _IntTy
+                        kv = models.SMap._key_value(self, kk)
+                        if isinstance(kv, (SStr, str)):
+                            kty = _StrTy
+                        elif isinstance(kv, (SInt, int)) and not isinstance(kv, bool):
+                            kty = _IntTy
+                        else:
+                            raise Unsupported('dict display with symbolic key %r' % (kk,))
+                        d = models.smap_of_dict(self, kty, None, d)
+                    d.setitem(self, kk, self.eval(v, frame))
+                    continue
+                if isinstance(d, dict):
+                    d[kk] = self.eval(v, frame)
+                else:
+                    d.setitem(self, kk, self.eval(v, frame))
         return d
 
     def e_Subscript(self, node, frame):
@@ -1278,10 +1473,12 @@ class Interp:
         from .pdict import PDict
         if isinstance(obj, PDict):
             return obj.getitem(self, idx)
-        if isinstance(obj, (SStr, SList)) or (isinstance(obj, str) and _slice_sym(idx)):
+        if isinstance(obj, (SStr, SList, models.SMap, models.SMapProxy)) or (isinstance(obj, str) and _slice_sym(idx)):
             return models.sym_getitem(self, obj, idx)
         if isinstance(obj, Opaque):
             return self.reg.call_opaque(self, obj, '__getitem__', [idx], {})
+        if isinstance(obj, models.SMap):
+            return obj.getitem(self, idx)
         if isinstance(obj, (list, tuple)) and isinstance(idx, SInt):
             # case split over the concrete positions
             n = len(obj)
@@ -1410,6 +1607,20 @@ class Interp:
             if isinstance(src, (SList, _models.SIter, _models.SEnumerate)):
                 from . import seqs
                 return seqs.map_comprehension(self, node, frame, src)
+            out = []
+            self._comp(node.generators, 0, frame, frame.locals, lambda fr: out.append(self.eval(node.elt, fr)),
+                       first_iter=src)
+            return out
+        if len(node.generators) == 1:
+            # [f(x) for x in xs if p(x)] over a symbolic sequence: a filtered sub-sequence (as for generator
+            # expressions)
+            src = self.eval(node.generators[0].iter, frame)
+            if isinstance(src, (SOpt, SChoice)):
+                src = self.resolve(src)
+            from . import models as _models
+            if isinstance(src, (SList, _models.SIter, _models.SEnumerate)):
+                from . import seqs
+                return seqs.filter_comprehension(self, node, frame, src)
             out = []
             self._comp(node.generators, 0, frame, frame.locals, lambda fr: out.append(self.eval(node.elt, fr)),
                        first_iter=src)
@@ -1559,10 +1770,19 @@ class Interp:
         return None
 
     def s_Return(self, node, frame):
-        v = self.eval(node.value, frame) if node.value is not None else None
-        if frame.info.node is getattr(self, 'cover_node', None):
-            self.st.reached.add(node.lineno)      # (reachability cover: see verify.verify_function)
+        try:
+            v = self.eval(node.value, frame) if node.value is not None else None
+        except PyRaise:
+            # `return f(...)` whose expression raises (e.g. `return self.error(...)`): the statement was reached
+            self._reached(node, frame)
+            raise
+        self._reached(node, frame)
         return ('return', v)
+
+    def _reached(self, node, frame):
+        """reachability cover: exit statements of the function under verification reached on this path"""
+        if frame.info.filename == self.cover_file:
+            self.st.reached.add(node.lineno)
 
     def s_Break(self, node, frame):
         return ('break',)
@@ -1591,7 +1811,7 @@ class Interp:
         t = node.target
         if isinstance(t, ast.Name):
             cur = self.lookup(self.mangle(t.id, frame.info.class_name), frame)
-            new = self._aug(type(node.op), cur, self.eval(node.value, frame))
+            new = self._aug(type(node.op), cur, self.eval(node.value, frame), holder=frame.locals)
             self.store_name(self.mangle(t.id, frame.info.class_name), new, frame)
         elif isinstance(t, ast.Attribute):
             obj = self.eval(t.value, frame)
@@ -1609,12 +1829,27 @@ class Interp:
             raise Unsupported('augmented assignment target')
         return None
 
-    def _aug(self, opcls, cur, val):
+    def _aug(self, opcls, cur, val, holder=None):
         if opcls is ast.Add and isinstance(cur, list):
             # list += iterable mutates in place
             if isinstance(val, (SOpt, SChoice)):
                 val = self.resolve(val)
+            if isinstance(val, SList):
+                # a concrete list extended by a sequence of symbolic length: it becomes a (mutable) symbolic
+                # list.  The name is re-bound to the new object, which is only faithful when nothing else
+                # refers to the old list: checked (conservatively) through the garbage collector.
+                if holder is None or not _only_referenced_from(cur, holder):
+                    raise Unsupported('`+=` of a symbolic-length sequence to a concrete list that may be aliased')
+                from . import seqs
+                return seqs.copy(seqs.concat(self, list(cur), val))
             cur.extend(list(self.iterate(val)))
+            return cur
+        if opcls is ast.Add and isinstance(cur, SList):
+            # list += iterable mutates in place (grow-only also for plain symbolic sequences)
+            if isinstance(val, (SOpt, SChoice)):
+                val = self.resolve(val)
+            from . import seqs
+            seqs.method(self, cur, 'extend', [val], {})
             return cur
         return self.binop(opcls, cur, val)
 
@@ -1663,8 +1898,6 @@ class Interp:
         from .pdict import PDict
         if isinstance(obj, PDict):
             return obj.setitem(self, idx, value)
-        if self.loop_guards:
-            self.note_heap_write(obj, None)
         if isinstance(obj, models.SMap):
             return obj.setitem(self, idx, value)
         from .mlist import MList
@@ -1690,8 +1923,6 @@ class Interp:
                 if isinstance(obj, (SOpt, SChoice)):
                     obj = self.resolve(obj)
                 from . import models
-                if self.loop_guards:
-                    self.note_heap_write(obj, None)
                 if isinstance(obj, models.SMap):
                     obj.delitem(self, idx)
                     continue
@@ -1749,8 +1980,7 @@ class Interp:
         return None
 
     def s_Raise(self, node, frame):
-        if frame.info.node is getattr(self, 'cover_node', None):
-            self.st.reached.add(node.lineno)
+        self._reached(node, frame)
         if node.exc is None:
             cur = getattr(frame, '_cur_exc', None) or self._current_exception
             if cur is None:
@@ -1918,10 +2148,20 @@ class Interp:
 
     def s_ImportFrom(self, node, frame):
         import importlib
+        import importlib.util
+        modname = node.module
         if node.level:
-            raise Unsupported('relative import')
+            # relative import: resolved against the package of the module the function lives in
+            g = frame.info.globals
+            pkg = g.get('__package__') or (g.get('__name__', '').rpartition('.')[0])
+            if not pkg:
+                raise Unsupported('relative import outside a package')
+            try:
+                modname = importlib.util.resolve_name('.' * node.level + (node.module or ''), pkg)
+            except Exception as e:
+                raise PyRaise(e)
         try:
-            mod = importlib.import_module(node.module)
+            mod = importlib.import_module(modname)
         except Exception as e:
             raise PyRaise(e)
         for al in node.names:
@@ -1929,7 +2169,7 @@ class Interp:
                 v = getattr(mod, al.name)
             except AttributeError:
                 try:
-                    v = importlib.import_module(node.module + '.' + al.name)
+                    v = importlib.import_module(modname + '.' + al.name)
                 except Exception as e:
                     raise PyRaise(e)
             frame.locals[al.asname or al.name] = v
@@ -2077,6 +2317,20 @@ def _slice_sym(idx):
     if isinstance(idx, slice):
         return any(isinstance(x, Sym) for x in (idx.start, idx.stop, idx.step))
     return isinstance(idx, Sym)
+
+
+def _only_referenced_from(obj, holder):
+    """True iff no container other than the dict `holder` (a frame's locals) refers to `obj`.
+    Interpreter stack frames and function cells do not count (they are temporaries of the engine)."""
+    import gc
+    for r in gc.get_referrers(obj):
+        if r is holder:
+            continue
+        if isinstance(r, types.FrameType) or type(r).__name__ in ('cell',):
+            continue
+        if isinstance(r, (dict, list, tuple, set, frozenset)) or hasattr(r, '__dict__') or hasattr(r, '__slots__'):
+            return False
+    return True
 
 
 def _static_lookup(cls, name):
